@@ -65,10 +65,15 @@ CHECKS = {
          "Seeded search over initial data (0..40 samples, 1-4 dims, unlabelled samples, ties, duplicates) and <= 25 operations over a pool of up to six live, mutually derived sets, so that aliasing between a set and the sets derived from it is exercised. After every operation: scale maps extremes onto the range ends (affine), revert restores the reference samples (before the first scaling since the last overriding rescale), sample-moving operations preserve the (sample,label) multiset with labels attached (tolerant matching), derived sets carry the scaling attributes, concatenation across scalings and out-of-range removals are refused with the operands unchanged. shuffle() draws from the global PRNG, which the run seed owns. Five genuine defects found here were repaired.",
          "Trusted: the reference model in engines/dataset_sim.py. Exceptions on degenerate sets (empty, coinciding samples) are accepted when the set is unchanged. Revert is judged on sets whose membership did not change since the first scaling.",
          "DESIGN.md section 5, C18"),
+ "C19": ("classification_sim", "exploration",
+         "deterministic simulation: learn once on seeded data, then seeded histories of __call__ / test_data / evaluate / re-evaluation requests with data inside, partly outside and entirely outside the learned range; arg-max reference oracle under the learning-time scaling",
+         "Seeded search over learning configurations (2-4 classes, split percentage, even/uneven split, shuffle via the seeded global PRNG, standard or dimension-wise learning) and call histories. Oracle: positions are re-scaled by the harness with the range and factor reported at learning time; returned classes must be a maximiser of the learned per-class densities for exactly the in-range (and, for test_data, labelled) samples; out-of-range samples are absent and all-out data is refused; summaries (wrong, total, percentage) of test_data and evaluate() are recomputed; classes recorded for earlier data are a stable prefix and re-evaluating earlier data gives the same classes; a second learning call is refused.",
+         "Trusted: the density values returned by the learned combination objects (their correctness is C16/C17's subject), harness re-scaling. Stubs: clock; global PRNG seeded by the run.",
+         "DESIGN.md section 5, C19"),
 }
 
 _P = "claimed by DESIGN.md but the check is not built yet in this tree; listed here until its engine is registered"
-PENDING = {k: _P for k in ["C15", "C17", "C19"]}
+PENDING = {k: _P for k in ["C15", "C17"]}
 
 def main():
     checks = []
